@@ -231,6 +231,20 @@ impl<'env> Executor<'env> {
         #[cfg(feature = "verif_hooks")]
         let _verif_activation = crate::verif_hooks::recursion::enter(state.ctx.depth());
         let initial_auto_escape = state.auto_escape;
+        #[cfg(feature = "verif_hooks")]
+        let (verif_entry_name, verif_entry_pc, verif_entry_depths) = {
+            crate::verif_hooks::balance::enter();
+            (
+                state.instructions.name(),
+                pc,
+                crate::verif_hooks::balance::Depths {
+                    frames: state.ctx.verif_stack_len(),
+                    captures: out.capture_depth(),
+                    auto_escape: state.auto_escape,
+                    auto_escape_stack: 0,
+                },
+            )
+        };
         let undefined_behavior = state.undefined_behavior();
         let strict_undefined = matches!(
             undefined_behavior,
@@ -868,6 +882,19 @@ impl<'env> Executor<'env> {
             }
             pc += 1;
         }
+
+        #[cfg(feature = "verif_hooks")]
+        crate::verif_hooks::balance::exit(
+            verif_entry_name,
+            verif_entry_pc,
+            &verif_entry_depths,
+            crate::verif_hooks::balance::Depths {
+                frames: state.ctx.verif_stack_len(),
+                captures: out.capture_depth(),
+                auto_escape: state.auto_escape,
+                auto_escape_stack: auto_escape_stack.len(),
+            },
+        );
 
         Ok(stack.try_pop())
     }
